@@ -36,195 +36,195 @@ macro_rules! layout_harness {
 }
 
 layout_harness!(k_layout_header, h_layout_header, md::MINIDUMP_HEADER, 32, |v, b, le| {
-    vassert!(v.signature == rd32(&b, 0, le), "MINIDUMP_HEADER.Signature at 0");
-    vassert!(v.version == rd32(&b, 4, le), "MINIDUMP_HEADER.Version at 4");
-    vassert!(v.stream_count == rd32(&b, 8, le), "MINIDUMP_HEADER.NumberOfStreams at 8");
-    vassert!(v.stream_directory_rva == rd32(&b, 12, le), "MINIDUMP_HEADER.StreamDirectoryRva at 12");
-    vassert!(v.checksum == rd32(&b, 16, le), "MINIDUMP_HEADER.CheckSum at 16");
-    vassert!(v.time_date_stamp == rd32(&b, 20, le), "MINIDUMP_HEADER.TimeDateStamp at 20");
-    vassert!(v.flags == rd64(&b, 24, le), "MINIDUMP_HEADER.Flags at 24");
+    vassert!((v.signature as u32) == rd32(&b, 0, le), "MINIDUMP_HEADER.Signature at 0");
+    vassert!((v.version as u32) == rd32(&b, 4, le), "MINIDUMP_HEADER.Version at 4");
+    vassert!((v.stream_count as u32) == rd32(&b, 8, le), "MINIDUMP_HEADER.NumberOfStreams at 8");
+    vassert!((v.stream_directory_rva as u32) == rd32(&b, 12, le), "MINIDUMP_HEADER.StreamDirectoryRva at 12");
+    vassert!((v.checksum as u32) == rd32(&b, 16, le), "MINIDUMP_HEADER.CheckSum at 16");
+    vassert!((v.time_date_stamp as u32) == rd32(&b, 20, le), "MINIDUMP_HEADER.TimeDateStamp at 20");
+    vassert!((v.flags as u64) == rd64(&b, 24, le), "MINIDUMP_HEADER.Flags at 24");
 });
 
 layout_harness!(k_layout_directory, h_layout_directory, md::MINIDUMP_DIRECTORY, 12, |v, b, le| {
-    vassert!(v.stream_type == rd32(&b, 0, le), "MINIDUMP_DIRECTORY.StreamType at 0");
-    vassert!(v.location.data_size == rd32(&b, 4, le), "MINIDUMP_DIRECTORY.Location.DataSize at 4");
-    vassert!(v.location.rva == rd32(&b, 8, le), "MINIDUMP_DIRECTORY.Location.Rva at 8");
+    vassert!((v.stream_type as u32) == rd32(&b, 0, le), "MINIDUMP_DIRECTORY.StreamType at 0");
+    vassert!((v.location.data_size as u32) == rd32(&b, 4, le), "MINIDUMP_DIRECTORY.Location.DataSize at 4");
+    vassert!((v.location.rva as u32) == rd32(&b, 8, le), "MINIDUMP_DIRECTORY.Location.Rva at 8");
 });
 
 layout_harness!(k_layout_memdesc, h_layout_memdesc, md::MINIDUMP_MEMORY_DESCRIPTOR, 16, |v, b, le| {
-    vassert!(v.start_of_memory_range == rd64(&b, 0, le), "MINIDUMP_MEMORY_DESCRIPTOR.StartOfMemoryRange at 0");
-    vassert!(v.memory.data_size == rd32(&b, 8, le), "MINIDUMP_MEMORY_DESCRIPTOR.Memory.DataSize at 8");
-    vassert!(v.memory.rva == rd32(&b, 12, le), "MINIDUMP_MEMORY_DESCRIPTOR.Memory.Rva at 12");
+    vassert!((v.start_of_memory_range as u64) == rd64(&b, 0, le), "MINIDUMP_MEMORY_DESCRIPTOR.StartOfMemoryRange at 0");
+    vassert!((v.memory.data_size as u32) == rd32(&b, 8, le), "MINIDUMP_MEMORY_DESCRIPTOR.Memory.DataSize at 8");
+    vassert!((v.memory.rva as u32) == rd32(&b, 12, le), "MINIDUMP_MEMORY_DESCRIPTOR.Memory.Rva at 12");
 });
 
 layout_harness!(k_layout_memdesc64, h_layout_memdesc64, md::MINIDUMP_MEMORY_DESCRIPTOR64, 16, |v, b, le| {
-    vassert!(v.start_of_memory_range == rd64(&b, 0, le), "MINIDUMP_MEMORY_DESCRIPTOR64.StartOfMemoryRange at 0");
-    vassert!(v.data_size == rd64(&b, 8, le), "MINIDUMP_MEMORY_DESCRIPTOR64.DataSize at 8");
+    vassert!((v.start_of_memory_range as u64) == rd64(&b, 0, le), "MINIDUMP_MEMORY_DESCRIPTOR64.StartOfMemoryRange at 0");
+    vassert!((v.data_size as u64) == rd64(&b, 8, le), "MINIDUMP_MEMORY_DESCRIPTOR64.DataSize at 8");
 });
 
 layout_harness!(k_layout_thread, h_layout_thread, md::MINIDUMP_THREAD, 48, |v, b, le| {
-    vassert!(v.thread_id == rd32(&b, 0, le), "MINIDUMP_THREAD.ThreadId at 0");
-    vassert!(v.suspend_count == rd32(&b, 4, le), "MINIDUMP_THREAD.SuspendCount at 4");
-    vassert!(v.priority_class == rd32(&b, 8, le), "MINIDUMP_THREAD.PriorityClass at 8");
-    vassert!(v.priority == rd32(&b, 12, le), "MINIDUMP_THREAD.Priority at 12");
-    vassert!(v.teb == rd64(&b, 16, le), "MINIDUMP_THREAD.Teb at 16");
-    vassert!(v.stack.start_of_memory_range == rd64(&b, 24, le), "MINIDUMP_THREAD.Stack.StartOfMemoryRange at 24");
-    vassert!(v.stack.memory.data_size == rd32(&b, 32, le), "MINIDUMP_THREAD.Stack.Memory.DataSize at 32");
-    vassert!(v.stack.memory.rva == rd32(&b, 36, le), "MINIDUMP_THREAD.Stack.Memory.Rva at 36");
-    vassert!(v.thread_context.data_size == rd32(&b, 40, le), "MINIDUMP_THREAD.ThreadContext.DataSize at 40");
-    vassert!(v.thread_context.rva == rd32(&b, 44, le), "MINIDUMP_THREAD.ThreadContext.Rva at 44");
+    vassert!((v.thread_id as u32) == rd32(&b, 0, le), "MINIDUMP_THREAD.ThreadId at 0");
+    vassert!((v.suspend_count as u32) == rd32(&b, 4, le), "MINIDUMP_THREAD.SuspendCount at 4");
+    vassert!((v.priority_class as u32) == rd32(&b, 8, le), "MINIDUMP_THREAD.PriorityClass at 8");
+    vassert!((v.priority as u32) == rd32(&b, 12, le), "MINIDUMP_THREAD.Priority at 12");
+    vassert!((v.teb as u64) == rd64(&b, 16, le), "MINIDUMP_THREAD.Teb at 16");
+    vassert!((v.stack.start_of_memory_range as u64) == rd64(&b, 24, le), "MINIDUMP_THREAD.Stack.StartOfMemoryRange at 24");
+    vassert!((v.stack.memory.data_size as u32) == rd32(&b, 32, le), "MINIDUMP_THREAD.Stack.Memory.DataSize at 32");
+    vassert!((v.stack.memory.rva as u32) == rd32(&b, 36, le), "MINIDUMP_THREAD.Stack.Memory.Rva at 36");
+    vassert!((v.thread_context.data_size as u32) == rd32(&b, 40, le), "MINIDUMP_THREAD.ThreadContext.DataSize at 40");
+    vassert!((v.thread_context.rva as u32) == rd32(&b, 44, le), "MINIDUMP_THREAD.ThreadContext.Rva at 44");
 });
 
 layout_harness!(k_layout_thread_name, h_layout_thread_name, md::MINIDUMP_THREAD_NAME, 12, |v, b, le| {
-    vassert!(v.thread_id == rd32(&b, 0, le), "MINIDUMP_THREAD_NAME.ThreadId at 0");
-    vassert!(v.thread_name_rva == rd64(&b, 4, le), "MINIDUMP_THREAD_NAME.RvaOfThreadName at 4 (packed)");
+    vassert!((v.thread_id as u32) == rd32(&b, 0, le), "MINIDUMP_THREAD_NAME.ThreadId at 0");
+    vassert!((v.thread_name_rva as u64) == rd64(&b, 4, le), "MINIDUMP_THREAD_NAME.RvaOfThreadName at 4 (packed)");
 });
 
 layout_harness!(k_layout_memory_info, h_layout_memory_info, md::MINIDUMP_MEMORY_INFO, 48, |v, b, le| {
-    vassert!(v.base_address == rd64(&b, 0, le), "MINIDUMP_MEMORY_INFO.BaseAddress at 0");
-    vassert!(v.allocation_base == rd64(&b, 8, le), "MINIDUMP_MEMORY_INFO.AllocationBase at 8");
-    vassert!(v.allocation_protection == rd32(&b, 16, le), "MINIDUMP_MEMORY_INFO.AllocationProtect at 16");
-    vassert!(v.region_size == rd64(&b, 24, le), "MINIDUMP_MEMORY_INFO.RegionSize at 24");
-    vassert!(v.state == rd32(&b, 32, le), "MINIDUMP_MEMORY_INFO.State at 32");
-    vassert!(v.protection == rd32(&b, 36, le), "MINIDUMP_MEMORY_INFO.Protect at 36");
-    vassert!(v._type == rd32(&b, 40, le), "MINIDUMP_MEMORY_INFO.Type at 40");
+    vassert!((v.base_address as u64) == rd64(&b, 0, le), "MINIDUMP_MEMORY_INFO.BaseAddress at 0");
+    vassert!((v.allocation_base as u64) == rd64(&b, 8, le), "MINIDUMP_MEMORY_INFO.AllocationBase at 8");
+    vassert!((v.allocation_protection as u32) == rd32(&b, 16, le), "MINIDUMP_MEMORY_INFO.AllocationProtect at 16");
+    vassert!((v.region_size as u64) == rd64(&b, 24, le), "MINIDUMP_MEMORY_INFO.RegionSize at 24");
+    vassert!((v.state as u32) == rd32(&b, 32, le), "MINIDUMP_MEMORY_INFO.State at 32");
+    vassert!((v.protection as u32) == rd32(&b, 36, le), "MINIDUMP_MEMORY_INFO.Protect at 36");
+    vassert!((v._type as u32) == rd32(&b, 40, le), "MINIDUMP_MEMORY_INFO.Type at 40");
 });
 
 layout_harness!(k_layout_unloaded_module, h_layout_unloaded_module, md::MINIDUMP_UNLOADED_MODULE, 24, |v, b, le| {
-    vassert!(v.base_of_image == rd64(&b, 0, le), "MINIDUMP_UNLOADED_MODULE.BaseOfImage at 0");
-    vassert!(v.size_of_image == rd32(&b, 8, le), "MINIDUMP_UNLOADED_MODULE.SizeOfImage at 8");
-    vassert!(v.checksum == rd32(&b, 12, le), "MINIDUMP_UNLOADED_MODULE.CheckSum at 12");
-    vassert!(v.time_date_stamp == rd32(&b, 16, le), "MINIDUMP_UNLOADED_MODULE.TimeDateStamp at 16");
-    vassert!(v.module_name_rva == rd32(&b, 20, le), "MINIDUMP_UNLOADED_MODULE.ModuleNameRva at 20");
+    vassert!((v.base_of_image as u64) == rd64(&b, 0, le), "MINIDUMP_UNLOADED_MODULE.BaseOfImage at 0");
+    vassert!((v.size_of_image as u32) == rd32(&b, 8, le), "MINIDUMP_UNLOADED_MODULE.SizeOfImage at 8");
+    vassert!((v.checksum as u32) == rd32(&b, 12, le), "MINIDUMP_UNLOADED_MODULE.CheckSum at 12");
+    vassert!((v.time_date_stamp as u32) == rd32(&b, 16, le), "MINIDUMP_UNLOADED_MODULE.TimeDateStamp at 16");
+    vassert!((v.module_name_rva as u32) == rd32(&b, 20, le), "MINIDUMP_UNLOADED_MODULE.ModuleNameRva at 20");
 });
 
 layout_harness!(k_layout_module, h_layout_module, md::MINIDUMP_MODULE, 108, |v, b, le| {
-    vassert!(v.base_of_image == rd64(&b, 0, le), "MINIDUMP_MODULE.BaseOfImage at 0");
-    vassert!(v.size_of_image == rd32(&b, 8, le), "MINIDUMP_MODULE.SizeOfImage at 8");
-    vassert!(v.checksum == rd32(&b, 12, le), "MINIDUMP_MODULE.CheckSum at 12");
-    vassert!(v.time_date_stamp == rd32(&b, 16, le), "MINIDUMP_MODULE.TimeDateStamp at 16");
-    vassert!(v.module_name_rva == rd32(&b, 20, le), "MINIDUMP_MODULE.ModuleNameRva at 20");
-    vassert!(v.version_info.signature == rd32(&b, 24, le), "MINIDUMP_MODULE.VersionInfo.dwSignature at 24");
-    vassert!(v.version_info.file_version_hi == rd32(&b, 32, le), "MINIDUMP_MODULE.VersionInfo.dwFileVersionMS at 32");
-    vassert!(v.version_info.file_version_lo == rd32(&b, 36, le), "MINIDUMP_MODULE.VersionInfo.dwFileVersionLS at 36");
-    vassert!(v.cv_record.data_size == rd32(&b, 76, le), "MINIDUMP_MODULE.CvRecord.DataSize at 76");
-    vassert!(v.cv_record.rva == rd32(&b, 80, le), "MINIDUMP_MODULE.CvRecord.Rva at 80");
-    vassert!(v.misc_record.data_size == rd32(&b, 84, le), "MINIDUMP_MODULE.MiscRecord.DataSize at 84");
-    vassert!(v.misc_record.rva == rd32(&b, 88, le), "MINIDUMP_MODULE.MiscRecord.Rva at 88");
+    vassert!((v.base_of_image as u64) == rd64(&b, 0, le), "MINIDUMP_MODULE.BaseOfImage at 0");
+    vassert!((v.size_of_image as u32) == rd32(&b, 8, le), "MINIDUMP_MODULE.SizeOfImage at 8");
+    vassert!((v.checksum as u32) == rd32(&b, 12, le), "MINIDUMP_MODULE.CheckSum at 12");
+    vassert!((v.time_date_stamp as u32) == rd32(&b, 16, le), "MINIDUMP_MODULE.TimeDateStamp at 16");
+    vassert!((v.module_name_rva as u32) == rd32(&b, 20, le), "MINIDUMP_MODULE.ModuleNameRva at 20");
+    vassert!((v.version_info.signature as u32) == rd32(&b, 24, le), "MINIDUMP_MODULE.VersionInfo.dwSignature at 24");
+    vassert!((v.version_info.file_version_hi as u32) == rd32(&b, 32, le), "MINIDUMP_MODULE.VersionInfo.dwFileVersionMS at 32");
+    vassert!((v.version_info.file_version_lo as u32) == rd32(&b, 36, le), "MINIDUMP_MODULE.VersionInfo.dwFileVersionLS at 36");
+    vassert!((v.cv_record.data_size as u32) == rd32(&b, 76, le), "MINIDUMP_MODULE.CvRecord.DataSize at 76");
+    vassert!((v.cv_record.rva as u32) == rd32(&b, 80, le), "MINIDUMP_MODULE.CvRecord.Rva at 80");
+    vassert!((v.misc_record.data_size as u32) == rd32(&b, 84, le), "MINIDUMP_MODULE.MiscRecord.DataSize at 84");
+    vassert!((v.misc_record.rva as u32) == rd32(&b, 88, le), "MINIDUMP_MODULE.MiscRecord.Rva at 88");
 });
 
 layout_harness!(k_layout_exception_stream, h_layout_exception_stream, md::MINIDUMP_EXCEPTION_STREAM, 168, |v, b, le| {
-    vassert!(v.thread_id == rd32(&b, 0, le), "MINIDUMP_EXCEPTION_STREAM.ThreadId at 0");
-    vassert!(v.exception_record.exception_code == rd32(&b, 8, le), "MINIDUMP_EXCEPTION.ExceptionCode at 8");
-    vassert!(v.exception_record.exception_flags == rd32(&b, 12, le), "MINIDUMP_EXCEPTION.ExceptionFlags at 12");
-    vassert!(v.exception_record.exception_record == rd64(&b, 16, le), "MINIDUMP_EXCEPTION.ExceptionRecord at 16");
-    vassert!(v.exception_record.exception_address == rd64(&b, 24, le), "MINIDUMP_EXCEPTION.ExceptionAddress at 24");
-    vassert!(v.exception_record.number_parameters == rd32(&b, 32, le), "MINIDUMP_EXCEPTION.NumberParameters at 32");
+    vassert!((v.thread_id as u32) == rd32(&b, 0, le), "MINIDUMP_EXCEPTION_STREAM.ThreadId at 0");
+    vassert!((v.exception_record.exception_code as u32) == rd32(&b, 8, le), "MINIDUMP_EXCEPTION.ExceptionCode at 8");
+    vassert!((v.exception_record.exception_flags as u32) == rd32(&b, 12, le), "MINIDUMP_EXCEPTION.ExceptionFlags at 12");
+    vassert!((v.exception_record.exception_record as u64) == rd64(&b, 16, le), "MINIDUMP_EXCEPTION.ExceptionRecord at 16");
+    vassert!((v.exception_record.exception_address as u64) == rd64(&b, 24, le), "MINIDUMP_EXCEPTION.ExceptionAddress at 24");
+    vassert!((v.exception_record.number_parameters as u32) == rd32(&b, 32, le), "MINIDUMP_EXCEPTION.NumberParameters at 32");
     vassert!(v.exception_record.exception_information[0] == rd64(&b, 40, le), "MINIDUMP_EXCEPTION.ExceptionInformation[0] at 40");
     vassert!(v.exception_record.exception_information[1] == rd64(&b, 48, le), "MINIDUMP_EXCEPTION.ExceptionInformation[1] at 48");
     vassert!(v.exception_record.exception_information[14] == rd64(&b, 152, le), "MINIDUMP_EXCEPTION.ExceptionInformation[14] at 152");
-    vassert!(v.thread_context.data_size == rd32(&b, 160, le), "MINIDUMP_EXCEPTION_STREAM.ThreadContext.DataSize at 160");
-    vassert!(v.thread_context.rva == rd32(&b, 164, le), "MINIDUMP_EXCEPTION_STREAM.ThreadContext.Rva at 164");
+    vassert!((v.thread_context.data_size as u32) == rd32(&b, 160, le), "MINIDUMP_EXCEPTION_STREAM.ThreadContext.DataSize at 160");
+    vassert!((v.thread_context.rva as u32) == rd32(&b, 164, le), "MINIDUMP_EXCEPTION_STREAM.ThreadContext.Rva at 164");
 });
 
 layout_harness!(k_layout_handle_desc, h_layout_handle_desc, md::MINIDUMP_HANDLE_DESCRIPTOR, 32, |v, b, le| {
-    vassert!(v.handle == rd64(&b, 0, le), "MINIDUMP_HANDLE_DESCRIPTOR.Handle at 0");
-    vassert!(v.type_name_rva == rd32(&b, 8, le), "MINIDUMP_HANDLE_DESCRIPTOR.TypeNameRva at 8");
-    vassert!(v.object_name_rva == rd32(&b, 12, le), "MINIDUMP_HANDLE_DESCRIPTOR.ObjectNameRva at 12");
-    vassert!(v.attributes == rd32(&b, 16, le), "MINIDUMP_HANDLE_DESCRIPTOR.Attributes at 16");
-    vassert!(v.granted_access == rd32(&b, 20, le), "MINIDUMP_HANDLE_DESCRIPTOR.GrantedAccess at 20");
-    vassert!(v.handle_count == rd32(&b, 24, le), "MINIDUMP_HANDLE_DESCRIPTOR.HandleCount at 24");
-    vassert!(v.pointer_count == rd32(&b, 28, le), "MINIDUMP_HANDLE_DESCRIPTOR.PointerCount at 28");
+    vassert!((v.handle as u64) == rd64(&b, 0, le), "MINIDUMP_HANDLE_DESCRIPTOR.Handle at 0");
+    vassert!((v.type_name_rva as u32) == rd32(&b, 8, le), "MINIDUMP_HANDLE_DESCRIPTOR.TypeNameRva at 8");
+    vassert!((v.object_name_rva as u32) == rd32(&b, 12, le), "MINIDUMP_HANDLE_DESCRIPTOR.ObjectNameRva at 12");
+    vassert!((v.attributes as u32) == rd32(&b, 16, le), "MINIDUMP_HANDLE_DESCRIPTOR.Attributes at 16");
+    vassert!((v.granted_access as u32) == rd32(&b, 20, le), "MINIDUMP_HANDLE_DESCRIPTOR.GrantedAccess at 20");
+    vassert!((v.handle_count as u32) == rd32(&b, 24, le), "MINIDUMP_HANDLE_DESCRIPTOR.HandleCount at 24");
+    vassert!((v.pointer_count as u32) == rd32(&b, 28, le), "MINIDUMP_HANDLE_DESCRIPTOR.PointerCount at 28");
 });
 
 layout_harness!(k_layout_handle_desc2, h_layout_handle_desc2, md::MINIDUMP_HANDLE_DESCRIPTOR_2, 40, |v, b, le| {
-    vassert!(v.handle == rd64(&b, 0, le), "MINIDUMP_HANDLE_DESCRIPTOR_2.Handle at 0");
-    vassert!(v.type_name_rva == rd32(&b, 8, le), "MINIDUMP_HANDLE_DESCRIPTOR_2.TypeNameRva at 8");
-    vassert!(v.object_name_rva == rd32(&b, 12, le), "MINIDUMP_HANDLE_DESCRIPTOR_2.ObjectNameRva at 12");
-    vassert!(v.attributes == rd32(&b, 16, le), "MINIDUMP_HANDLE_DESCRIPTOR_2.Attributes at 16");
-    vassert!(v.granted_access == rd32(&b, 20, le), "MINIDUMP_HANDLE_DESCRIPTOR_2.GrantedAccess at 20");
-    vassert!(v.handle_count == rd32(&b, 24, le), "MINIDUMP_HANDLE_DESCRIPTOR_2.HandleCount at 24");
-    vassert!(v.pointer_count == rd32(&b, 28, le), "MINIDUMP_HANDLE_DESCRIPTOR_2.PointerCount at 28");
-    vassert!(v.object_info_rva == rd32(&b, 32, le), "MINIDUMP_HANDLE_DESCRIPTOR_2.ObjectInfoRva at 32");
+    vassert!((v.handle as u64) == rd64(&b, 0, le), "MINIDUMP_HANDLE_DESCRIPTOR_2.Handle at 0");
+    vassert!((v.type_name_rva as u32) == rd32(&b, 8, le), "MINIDUMP_HANDLE_DESCRIPTOR_2.TypeNameRva at 8");
+    vassert!((v.object_name_rva as u32) == rd32(&b, 12, le), "MINIDUMP_HANDLE_DESCRIPTOR_2.ObjectNameRva at 12");
+    vassert!((v.attributes as u32) == rd32(&b, 16, le), "MINIDUMP_HANDLE_DESCRIPTOR_2.Attributes at 16");
+    vassert!((v.granted_access as u32) == rd32(&b, 20, le), "MINIDUMP_HANDLE_DESCRIPTOR_2.GrantedAccess at 20");
+    vassert!((v.handle_count as u32) == rd32(&b, 24, le), "MINIDUMP_HANDLE_DESCRIPTOR_2.HandleCount at 24");
+    vassert!((v.pointer_count as u32) == rd32(&b, 28, le), "MINIDUMP_HANDLE_DESCRIPTOR_2.PointerCount at 28");
+    vassert!((v.object_info_rva as u32) == rd32(&b, 32, le), "MINIDUMP_HANDLE_DESCRIPTOR_2.ObjectInfoRva at 32");
 });
 
 layout_harness!(k_layout_system_info, h_layout_system_info, md::MINIDUMP_SYSTEM_INFO, 56, |v, b, le| {
-    vassert!(v.processor_architecture == rd16(&b, 0, le), "MINIDUMP_SYSTEM_INFO.ProcessorArchitecture at 0");
-    vassert!(v.processor_level == rd16(&b, 2, le), "MINIDUMP_SYSTEM_INFO.ProcessorLevel at 2");
-    vassert!(v.processor_revision == rd16(&b, 4, le), "MINIDUMP_SYSTEM_INFO.ProcessorRevision at 4");
+    vassert!((v.processor_architecture as u16) == rd16(&b, 0, le), "MINIDUMP_SYSTEM_INFO.ProcessorArchitecture at 0");
+    vassert!((v.processor_level as u16) == rd16(&b, 2, le), "MINIDUMP_SYSTEM_INFO.ProcessorLevel at 2");
+    vassert!((v.processor_revision as u16) == rd16(&b, 4, le), "MINIDUMP_SYSTEM_INFO.ProcessorRevision at 4");
     vassert!(v.number_of_processors == b[6], "MINIDUMP_SYSTEM_INFO.NumberOfProcessors at 6");
     vassert!(v.product_type == b[7], "MINIDUMP_SYSTEM_INFO.ProductType at 7");
-    vassert!(v.major_version == rd32(&b, 8, le), "MINIDUMP_SYSTEM_INFO.MajorVersion at 8");
-    vassert!(v.minor_version == rd32(&b, 12, le), "MINIDUMP_SYSTEM_INFO.MinorVersion at 12");
-    vassert!(v.build_number == rd32(&b, 16, le), "MINIDUMP_SYSTEM_INFO.BuildNumber at 16");
-    vassert!(v.platform_id == rd32(&b, 20, le), "MINIDUMP_SYSTEM_INFO.PlatformId at 20");
-    vassert!(v.csd_version_rva == rd32(&b, 24, le), "MINIDUMP_SYSTEM_INFO.CSDVersionRva at 24");
-    vassert!(v.suite_mask == rd16(&b, 28, le), "MINIDUMP_SYSTEM_INFO.SuiteMask at 28");
+    vassert!((v.major_version as u32) == rd32(&b, 8, le), "MINIDUMP_SYSTEM_INFO.MajorVersion at 8");
+    vassert!((v.minor_version as u32) == rd32(&b, 12, le), "MINIDUMP_SYSTEM_INFO.MinorVersion at 12");
+    vassert!((v.build_number as u32) == rd32(&b, 16, le), "MINIDUMP_SYSTEM_INFO.BuildNumber at 16");
+    vassert!((v.platform_id as u32) == rd32(&b, 20, le), "MINIDUMP_SYSTEM_INFO.PlatformId at 20");
+    vassert!((v.csd_version_rva as u32) == rd32(&b, 24, le), "MINIDUMP_SYSTEM_INFO.CSDVersionRva at 24");
+    vassert!((v.suite_mask as u16) == rd16(&b, 28, le), "MINIDUMP_SYSTEM_INFO.SuiteMask at 28");
 });
 
 layout_harness!(k_layout_breakpad_info, h_layout_breakpad_info, md::MINIDUMP_BREAKPAD_INFO, 12, |v, b, le| {
-    vassert!(v.validity == rd32(&b, 0, le), "MINIDUMP_BREAKPAD_INFO.validity at 0");
-    vassert!(v.dump_thread_id == rd32(&b, 4, le), "MINIDUMP_BREAKPAD_INFO.dump_thread_id at 4");
-    vassert!(v.requesting_thread_id == rd32(&b, 8, le), "MINIDUMP_BREAKPAD_INFO.requesting_thread_id at 8");
+    vassert!((v.validity as u32) == rd32(&b, 0, le), "MINIDUMP_BREAKPAD_INFO.validity at 0");
+    vassert!((v.dump_thread_id as u32) == rd32(&b, 4, le), "MINIDUMP_BREAKPAD_INFO.dump_thread_id at 4");
+    vassert!((v.requesting_thread_id as u32) == rd32(&b, 8, le), "MINIDUMP_BREAKPAD_INFO.requesting_thread_id at 8");
 });
 
 layout_harness!(k_layout_misc_info, h_layout_misc_info, md::MINIDUMP_MISC_INFO, 24, |v, b, le| {
-    vassert!(v.size_of_info == rd32(&b, 0, le), "MINIDUMP_MISC_INFO.SizeOfInfo at 0");
-    vassert!(v.flags1 == rd32(&b, 4, le), "MINIDUMP_MISC_INFO.Flags1 at 4");
-    vassert!(v.process_id == rd32(&b, 8, le), "MINIDUMP_MISC_INFO.ProcessId at 8");
-    vassert!(v.process_create_time == rd32(&b, 12, le), "MINIDUMP_MISC_INFO.ProcessCreateTime at 12");
-    vassert!(v.process_user_time == rd32(&b, 16, le), "MINIDUMP_MISC_INFO.ProcessUserTime at 16");
-    vassert!(v.process_kernel_time == rd32(&b, 20, le), "MINIDUMP_MISC_INFO.ProcessKernelTime at 20");
+    vassert!((v.size_of_info as u32) == rd32(&b, 0, le), "MINIDUMP_MISC_INFO.SizeOfInfo at 0");
+    vassert!((v.flags1 as u32) == rd32(&b, 4, le), "MINIDUMP_MISC_INFO.Flags1 at 4");
+    vassert!((v.process_id as u32) == rd32(&b, 8, le), "MINIDUMP_MISC_INFO.ProcessId at 8");
+    vassert!((v.process_create_time as u32) == rd32(&b, 12, le), "MINIDUMP_MISC_INFO.ProcessCreateTime at 12");
+    vassert!((v.process_user_time as u32) == rd32(&b, 16, le), "MINIDUMP_MISC_INFO.ProcessUserTime at 16");
+    vassert!((v.process_kernel_time as u32) == rd32(&b, 20, le), "MINIDUMP_MISC_INFO.ProcessKernelTime at 20");
 });
 
 layout_harness!(k_layout_location, h_layout_location, md::MINIDUMP_LOCATION_DESCRIPTOR, 8, |v, b, le| {
-    vassert!(v.data_size == rd32(&b, 0, le), "MINIDUMP_LOCATION_DESCRIPTOR.DataSize at 0");
-    vassert!(v.rva == rd32(&b, 4, le), "MINIDUMP_LOCATION_DESCRIPTOR.Rva at 4");
+    vassert!((v.data_size as u32) == rd32(&b, 0, le), "MINIDUMP_LOCATION_DESCRIPTOR.DataSize at 0");
+    vassert!((v.rva as u32) == rd32(&b, 4, le), "MINIDUMP_LOCATION_DESCRIPTOR.Rva at 4");
 });
 
 // Crashpad extension structures (crashpad/minidump/minidump_extensions.h)
 layout_harness!(k_layout_cp_dict_entry, h_layout_cp_dict_entry, md::MINIDUMP_SIMPLE_STRING_DICTIONARY_ENTRY, 8, |v, b, le| {
-    vassert!(v.key == rd32(&b, 0, le), "MinidumpSimpleStringDictionaryEntry.key at 0");
-    vassert!(v.value == rd32(&b, 4, le), "MinidumpSimpleStringDictionaryEntry.value at 4");
+    vassert!((v.key as u32) == rd32(&b, 0, le), "MinidumpSimpleStringDictionaryEntry.key at 0");
+    vassert!((v.value as u32) == rd32(&b, 4, le), "MinidumpSimpleStringDictionaryEntry.value at 4");
 });
 
 layout_harness!(k_layout_cp_annotation, h_layout_cp_annotation, md::MINIDUMP_ANNOTATION, 12, |v, b, le| {
-    vassert!(v.name == rd32(&b, 0, le), "MinidumpAnnotation.name at 0");
-    vassert!(v.ty == rd16(&b, 4, le), "MinidumpAnnotation.type at 4");
-    vassert!(v._reserved == rd16(&b, 6, le), "MinidumpAnnotation.reserved at 6");
-    vassert!(v.value == rd32(&b, 8, le), "MinidumpAnnotation.value at 8");
+    vassert!((v.name as u32) == rd32(&b, 0, le), "MinidumpAnnotation.name at 0");
+    vassert!((v.ty as u16) == rd16(&b, 4, le), "MinidumpAnnotation.type at 4");
+    vassert!((v._reserved as u16) == rd16(&b, 6, le), "MinidumpAnnotation.reserved at 6");
+    vassert!((v.value as u32) == rd32(&b, 8, le), "MinidumpAnnotation.value at 8");
 });
 
 layout_harness!(k_layout_cp_module_info, h_layout_cp_module_info, md::MINIDUMP_MODULE_CRASHPAD_INFO, 28, |v, b, le| {
-    vassert!(v.version == rd32(&b, 0, le), "MinidumpModuleCrashpadInfo.version at 0");
-    vassert!(v.list_annotations.data_size == rd32(&b, 4, le), "MinidumpModuleCrashpadInfo.list_annotations.DataSize at 4");
-    vassert!(v.list_annotations.rva == rd32(&b, 8, le), "MinidumpModuleCrashpadInfo.list_annotations.Rva at 8");
-    vassert!(v.simple_annotations.data_size == rd32(&b, 12, le), "MinidumpModuleCrashpadInfo.simple_annotations.DataSize at 12");
-    vassert!(v.simple_annotations.rva == rd32(&b, 16, le), "MinidumpModuleCrashpadInfo.simple_annotations.Rva at 16");
-    vassert!(v.annotation_objects.data_size == rd32(&b, 20, le), "MinidumpModuleCrashpadInfo.annotation_objects.DataSize at 20");
-    vassert!(v.annotation_objects.rva == rd32(&b, 24, le), "MinidumpModuleCrashpadInfo.annotation_objects.Rva at 24");
+    vassert!((v.version as u32) == rd32(&b, 0, le), "MinidumpModuleCrashpadInfo.version at 0");
+    vassert!((v.list_annotations.data_size as u32) == rd32(&b, 4, le), "MinidumpModuleCrashpadInfo.list_annotations.DataSize at 4");
+    vassert!((v.list_annotations.rva as u32) == rd32(&b, 8, le), "MinidumpModuleCrashpadInfo.list_annotations.Rva at 8");
+    vassert!((v.simple_annotations.data_size as u32) == rd32(&b, 12, le), "MinidumpModuleCrashpadInfo.simple_annotations.DataSize at 12");
+    vassert!((v.simple_annotations.rva as u32) == rd32(&b, 16, le), "MinidumpModuleCrashpadInfo.simple_annotations.Rva at 16");
+    vassert!((v.annotation_objects.data_size as u32) == rd32(&b, 20, le), "MinidumpModuleCrashpadInfo.annotation_objects.DataSize at 20");
+    vassert!((v.annotation_objects.rva as u32) == rd32(&b, 24, le), "MinidumpModuleCrashpadInfo.annotation_objects.Rva at 24");
 });
 
 layout_harness!(k_layout_cp_module_link, h_layout_cp_module_link, md::MINIDUMP_MODULE_CRASHPAD_INFO_LINK, 12, |v, b, le| {
-    vassert!(v.minidump_module_list_index == rd32(&b, 0, le), "MinidumpModuleCrashpadInfoLink.minidump_module_list_index at 0");
-    vassert!(v.location.data_size == rd32(&b, 4, le), "MinidumpModuleCrashpadInfoLink.location.DataSize at 4");
-    vassert!(v.location.rva == rd32(&b, 8, le), "MinidumpModuleCrashpadInfoLink.location.Rva at 8");
+    vassert!((v.minidump_module_list_index as u32) == rd32(&b, 0, le), "MinidumpModuleCrashpadInfoLink.minidump_module_list_index at 0");
+    vassert!((v.location.data_size as u32) == rd32(&b, 4, le), "MinidumpModuleCrashpadInfoLink.location.DataSize at 4");
+    vassert!((v.location.rva as u32) == rd32(&b, 8, le), "MinidumpModuleCrashpadInfoLink.location.Rva at 8");
 });
 
 layout_harness!(k_layout_cp_info, h_layout_cp_info, md::MINIDUMP_CRASHPAD_INFO, 52, |v, b, le| {
-    vassert!(v.version == rd32(&b, 0, le), "MinidumpCrashpadInfo.version at 0");
-    vassert!(v.report_id.data1 == rd32(&b, 4, le), "MinidumpCrashpadInfo.report_id.data1 at 4");
-    vassert!(v.report_id.data2 == rd16(&b, 8, le), "MinidumpCrashpadInfo.report_id.data2 at 8");
-    vassert!(v.report_id.data3 == rd16(&b, 10, le), "MinidumpCrashpadInfo.report_id.data3 at 10");
+    vassert!((v.version as u32) == rd32(&b, 0, le), "MinidumpCrashpadInfo.version at 0");
+    vassert!((v.report_id.data1 as u32) == rd32(&b, 4, le), "MinidumpCrashpadInfo.report_id.data1 at 4");
+    vassert!((v.report_id.data2 as u16) == rd16(&b, 8, le), "MinidumpCrashpadInfo.report_id.data2 at 8");
+    vassert!((v.report_id.data3 as u16) == rd16(&b, 10, le), "MinidumpCrashpadInfo.report_id.data3 at 10");
     vassert!(v.report_id.data4[0] == b[12] && v.report_id.data4[7] == b[19], "MinidumpCrashpadInfo.report_id.data4 at 12..20");
-    vassert!(v.client_id.data1 == rd32(&b, 20, le), "MinidumpCrashpadInfo.client_id.data1 at 20");
-    vassert!(v.client_id.data2 == rd16(&b, 24, le), "MinidumpCrashpadInfo.client_id.data2 at 24");
-    vassert!(v.client_id.data3 == rd16(&b, 26, le), "MinidumpCrashpadInfo.client_id.data3 at 26");
+    vassert!((v.client_id.data1 as u32) == rd32(&b, 20, le), "MinidumpCrashpadInfo.client_id.data1 at 20");
+    vassert!((v.client_id.data2 as u16) == rd16(&b, 24, le), "MinidumpCrashpadInfo.client_id.data2 at 24");
+    vassert!((v.client_id.data3 as u16) == rd16(&b, 26, le), "MinidumpCrashpadInfo.client_id.data3 at 26");
     vassert!(v.client_id.data4[0] == b[28] && v.client_id.data4[7] == b[35], "MinidumpCrashpadInfo.client_id.data4 at 28..36");
-    vassert!(v.simple_annotations.data_size == rd32(&b, 36, le), "MinidumpCrashpadInfo.simple_annotations.DataSize at 36");
-    vassert!(v.simple_annotations.rva == rd32(&b, 40, le), "MinidumpCrashpadInfo.simple_annotations.Rva at 40");
-    vassert!(v.module_list.data_size == rd32(&b, 44, le), "MinidumpCrashpadInfo.module_list.DataSize at 44");
-    vassert!(v.module_list.rva == rd32(&b, 48, le), "MinidumpCrashpadInfo.module_list.Rva at 48");
+    vassert!((v.simple_annotations.data_size as u32) == rd32(&b, 36, le), "MinidumpCrashpadInfo.simple_annotations.DataSize at 36");
+    vassert!((v.simple_annotations.rva as u32) == rd32(&b, 40, le), "MinidumpCrashpadInfo.simple_annotations.Rva at 40");
+    vassert!((v.module_list.data_size as u32) == rd32(&b, 44, le), "MinidumpCrashpadInfo.module_list.DataSize at 44");
+    vassert!((v.module_list.rva as u32) == rd32(&b, 48, le), "MinidumpCrashpadInfo.module_list.Rva at 48");
 });
 
 pub fn register(v: &mut Vec<(&'static str, fn(&mut TapeSrc))>) {
